@@ -56,8 +56,8 @@ def step (s : St) : List String → St × List String
     let h := kvInt rest "h"
     let (s', o) := Gauge.step s (.block h (kvInt rest "fc") oks (parseStaking rest))
     match o with
-    | .block allocs swept =>
-      (s', [s!"block h={h} allocs={showPairs allocs} swept={swept} fees={showFees s'} epochs={showEpochs s'.epochs} gauges={showGauges s'.gauges} votes={showVotes s'.votes}"])
+    | .block allocs _ =>
+      (s', [s!"block h={h} allocs={showPairs allocs} fees={showFees s'} epochs={showEpochs s'.epochs} gauges={showGauges s'.gauges} votes={showVotes s'.votes}"])
     | _ => (s', ["halt"])
   | _ => (s, ["bad-op"])
 
